@@ -110,6 +110,14 @@ class Oracle:
             if out is None:
                 self.fail("missing-" + cid, [cid], "no implementation output")
                 continue
+            if "!INPUT-MODIFIED" in out:
+                # lent memory: the function wrote into (or behind) one of its inputs — the functional model
+                # cannot show this, the sentinel buffers of the harness do
+                i = out.index(" !INPUT-MODIFIED")
+                self.fail("lent-memory-" + cid, [cid], "an encoder / decoder / range builder modified memory lent by its caller: "
+                          + out[i + 18:][:300], kind=kind)
+                out = out[:i]
+            self.evals += 1
             per.setdefault(kind, []).append((cid, c[1:], out))
             if cid.startswith("w") or cid.startswith("c"):
                 worlds.setdefault(cid.split(".")[0], []).append((cid, kind, c[1:], out))
